@@ -70,6 +70,7 @@ theorem c10_step (r : Rep) (op : RepOp) (h : setsRev op = false) :
   | lunmap => unfold Rep.step rwWrites; simp only [rwWrites]; split <;> simp
   | rbPromote => simp [setsRev] at h
   | rbEnd => unfold Rep.step rwWrites; simp only [rwWrites]; split <;> simp
+  | clone n => unfold Rep.step rwWrites; simp only [rwWrites]; split <;> (try split) <;> simp
 
 /-- **C10 (exact).** Over any history without `SetRevisionCounter` — writes, mode changes,
     snapshots, deletions, reverts, close/open/reload — the counter grows by exactly the number of
